@@ -29,7 +29,11 @@ inductive HostId
   | hashed (salt hash : String)
 deriving DecidableEq, Repr
 
-/-- one line matched by `^\S+\s[\w\-]+\s\S+$` (ssh_config.py:461): comma-listed host field, key type, key -/
+/-- one line accepted by `_parse` (ssh_config.py:466-468, since f17fdd5:
+    `^[ \t]*(?![#@])(\S+)[ \t]+([\w\-@.]+)[ \t]+(\S+)(?:[ \t].*)?$` — leading blanks, runs of blanks / tabs, a trailing
+    comment; lines starting with `#` or an `@marker` contribute NOTHING): comma-listed host field, key type, key.
+    The text → entries step itself is not modelled; rig A checks it against an oracle written independently of the
+    regex (marker / comment / tab / trailing-comment lines) and feeds the model the entries that oracle extracts. -/
 structure Entry where
   ids : List HostId
   keyType : String
@@ -89,6 +93,7 @@ structure Cfg where
   kexOK : Bool      -- server side: the handshake completes
   accKey : Bool     -- server side: accepts the key
   accPw : Bool      -- server side: accepts the password
+  userUnpins : Bool -- the user's transport_options["asyncssh"] carry `known_hosts: None` (asyncssh only)
 deriving DecidableEq, Repr
 
 inductive Lib | paramiko | ssh2 | asyncssh
@@ -120,7 +125,7 @@ def authenticate (lib : Lib) (c : Cfg) (s : St) : St :=
     first; then key exchange; with trusted keys given, a server key outside them ends the connection
     with HostKeyNotVerifiable BEFORE any authentication request; then publickey (if client keys), then
     password (sent even when empty); PermissionDenied when all are refused. -/
-def asyncsshConnect (pin fallback : Bool) (c : Cfg) (s : St) : St :=
+def asyncsshConnect (pin fallback overridable : Bool) (c : Cfg) (s : St) : St :=
   -- `_known_host_keys` 137-150: look the host up again (138), `import_public_key(key_type + " " + public_key)`
   -- (141-144); KeyError (nothing found) / KeyImportError (unusable key) raise ScrapliAuthenticationFailed
   -- (145-148) — unless the method has a non-raising path (`fallback`), in which case connect() gets
@@ -129,7 +134,9 @@ def asyncsshConnect (pin fallback : Bool) (c : Cfg) (s : St) : St :=
   let usable := c.found && c.importable
   if pin && !usable && !fallback then s.raise [] Exc.authenticationFailed
   else
-  let pinned := pin && usable
+  -- 219-220 `common_args.update(transport_options.get("asyncssh", {}))` AFTER the pin (`overridable`): the user's
+  -- `known_hosts: None` replaces the expected key, connect() verifies nothing
+  let pinned := pin && usable && !(overridable && c.userUnpins)
   if c.hasKey && !c.keyLoads then s.raise [] Exc.library            -- KeyImportError / FileNotFoundError
   else if !c.kexOK then s.raise [Ev.kex] Exc.connectionNotOpened     -- OSError / DisconnectError 260-263
   else if pinned && !c.equal then s.raise [Ev.kex, Ev.verifyFail] Exc.authenticationFailed   -- HostKeyNotVerifiable 242-251
@@ -154,7 +161,7 @@ def stepCall (lib : Lib) (c : Cfg) (s : St) : Call → St
     if !c.found then s.raise [Ev.lookup false false] Exc.library
     else if !c.equal then s.raise [Ev.lookup true false, Ev.verifyFail] Exc.authenticationFailed
     else s.emit [Ev.lookup true true, Ev.verifyOK]
-  | .connect pin fb => asyncsshConnect (pin && c.strict) fb c s
+  | .connect pin fb ov => asyncsshConnect (pin && c.strict) fb ov c s
   | .authenticate => authenticate lib c s
   | .openChannel => s.emit [Ev.openSession]
 
@@ -184,12 +191,14 @@ def ssh2Order : List (Call × Bool) :=
 /-- asyncssh 190-195 `if strict: _verify_key()` (presence) · 237-241 connect · 268-273 `if strict:
     _verify_key_value()` · 276 open_session; `pin` = strict mode hands the expected key to connect;
     `fallback` = … unless it cannot load it -/
-def asyncsshOrder (pin fallback : Bool) : List (Call × Bool) :=
-  [(.verifyPresent, true), (.connect pin fallback, false), (.verifyValue, true), (.openChannel, false)]
+def asyncsshOrder (pin fallback overridable : Bool) : List (Call × Bool) :=
+  [(.verifyPresent, true), (.connect pin fallback overridable, false), (.verifyValue, true), (.openChannel, false)]
 
-/-- strict mode pins the expected key and has no way around it -/
-def pinOf (calls : List (Call × Bool)) : Bool := calls.any (fun p => p.1 == Call.connect true false)
-def fallbackOf (calls : List (Call × Bool)) : Bool := calls.any (fun p => p.1 == Call.connect true true)
+/-- the flags of the first `connect` of a call list -/
+def connectFlags : List (Call × Bool) → Bool × Bool × Bool
+  | [] => (false, false, false)
+  | (.connect p f o, _) :: _ => (p, f, o)
+  | _ :: r => connectFlags r
 
 /-! ## the property on a trace -/
 
@@ -214,6 +223,7 @@ structure Env where
   kexOK : Bool
   accKey : Bool
   accPw : Bool
+  userUnpins : Bool
 deriving DecidableEq, Repr
 
 def cfgOf (hmac : String → String → String) (imp : String → String → Bool) (es : List Entry)
@@ -222,7 +232,7 @@ def cfgOf (hmac : String → String → String) (imp : String → String → Boo
   { strict := e.strict, found := r.isSome, equal := (r.map (·.2)) == some serverKey,
     importable := (r.map (fun v => imp v.1 v.2)).getD false,
     hasKey := e.hasKey, keyLoads := e.keyLoads, hasPw := e.hasPw, hasUser := e.hasUser,
-    kexOK := e.kexOK, accKey := e.accKey, accPw := e.accPw }
+    kexOK := e.kexOK, accKey := e.accKey, accPw := e.accPw, userUnpins := e.userUnpins }
 
 /-! ## histories: several `open()` attempts on ONE transport object
 
